@@ -58,12 +58,13 @@ def specSliceL {α : Type} [BEq α] (xs : List α) (start : Int) (end_ : Option 
 
 /-! ### unique -/
 
-/-- the elements with no equal element before them, in order. -/
-def firstOccs (xs : List Value) : List Value :=
-  (List.range xs.length).filterMap fun i =>
-    match xs[i]? with
-    | some x => if (xs.take i).any (fun y => veq y x) then none else some x
-    | none => none
+/-- the elements with no equal element before them, in order; `pre` = all elements before. -/
+def firstOccsFrom (pre : List Value) : List Value → List Value
+  | [] => []
+  | x :: xs =>
+    if pre.any (fun y => veq y x) then firstOccsFrom (x :: pre) xs else x :: firstOccsFrom (x :: pre) xs
+
+def firstOccs (xs : List Value) : List Value := firstOccsFrom [] xs
 
 def distinct : List Value → Bool
   | [] => true
@@ -104,8 +105,7 @@ mutual
     | _, .nil => true
     | .nil, .cons _ _ _ => false
     | .cons k x m, .cons l r rm =>
-      if k = l then (if deep then subV deep x r else x == r) && subM deep m rm
-      else subM deep m (.cons l r rm)
+      (k == l && (if deep then subV deep x r else x == r) && subM deep m rm) || subM deep m (.cons l r rm)
 end
 
 /-- the three clauses of "removes exactly the empty items it is configured to":
